@@ -221,6 +221,7 @@ func cmdCheck(args []string) int {
 	}
 	work := filepath.Join(outDir, "work", prop)
 	os.RemoveAll(work)
+	os.RemoveAll(filepath.Join(outDir, "replays", prop)) // replays are rewritten by the run that finds them
 	tDis := time.Now()
 	if os.Getenv("VERIF_VERBOSE") != "" {
 		fmt.Printf("  symbolic execution done after %.1fs, %d obligation instances\n", time.Since(start).Seconds(), len(all))
